@@ -98,7 +98,8 @@ func runC16(c *ctx) {
 		return out
 	}
 	take("P")
-	ops := []string{"/x", "/oauth2/login", "/oauth2/login?redirect=/deep/page", "/oauth2/login?redirect=http://evil.io/", "/oauth2/logout", "/oauth2/logout?redirect=//evil.io", "/oauth2/session",
+	// the order matters: requests WITH extra parameters come before plain ones - a proxy must not carry anything over from one request to the next
+	ops := []string{"/x", "/oauth2/login?prompt=login&level=idporten-loa-high&locale=en", "/oauth2/login", "/oauth2/logout?prompt=select_account", "/oauth2/login?redirect=/deep/page", "/oauth2/login?redirect=http://evil.io/", "/oauth2/logout", "/oauth2/logout?redirect=//evil.io", "/oauth2/session",
 		"/oauth2/session/refresh", "/oauth2/logout/local", "/oauth2/logout/frontchannel?sid=x", "/oauth2/callback?code=x&state=y", "/oauth2/logout/callback", "/oauth2/session/forwardauth"}
 	rounds := 3
 	if c.thorough() {
@@ -113,14 +114,25 @@ func runC16(c *ctx) {
 			hdr := http.Header{"Sec-Fetch-Mode": {"navigate"}, "Sec-Fetch-Dest": {"document"}}
 			resp := b.do(prx, "GET", "http://app.example.com"+op, hdr)
 			locBase, locRedirect := "", ""
+			var locKeys, reqKeys []string
+			if ou, err := url.Parse(op); err == nil {
+				for k := range ou.Query() {
+					reqKeys = append(reqKeys, k)
+				}
+				sort.Strings(reqKeys)
+			}
 			if lu, err := url.Parse(resp.Location); err == nil && resp.Location != "" {
+				for k := range lu.Query() {
+					locKeys = append(locKeys, k)
+				}
+				sort.Strings(locKeys)
 				locRedirect = lu.Query().Get("redirect")
 				lu.RawQuery = ""
 				locBase = lu.String()
 			}
 			c.count("proxyop")
 			c.emit("proxycmds", "op", hx(op), "cmds", take("P"), "idpcalls", len(s.idp.callsSince(nc)), "status", resp.Status, "locbase", hx(locBase), "locredirect", hx(locRedirect),
-				"setcookies", len(resp.Cookies))
+				"lockeys", locKeys, "reqkeys", reqKeys, "setcookies", len(resp.Cookies))
 		}
 		// make the session refreshable again through the server (so the proxy sees fresh and stale tokens)
 		b.do(srv, "POST", "http://sso.example.com/oauth2/session/refresh", nil)
